@@ -1360,6 +1360,41 @@ struct Exec {
         }
         if (e.trace && !ops.caps.trace)
             return invalid("update: trace on a policy without trace");
+        if (e.fork) {
+            // abort probe: the handler returns; update must abort, after one
+            // report naming a missing class, without installing anything
+            if (wf.status != WF_MISSING || ops.caps.throws ||
+                e.mode != HM_RETURNS)
+                return invalid("update: fork probe needs a lost registration");
+            ForkOut fo = in_fork(s, HM_RETURNS, [&] { ops.update(e); });
+            ++res.st.faults["handler_returns"];
+            ++res.st.faults["lost_registration_update"];
+            std::ostringstream ls;
+            ls << "probe update " << s.name << " sig=" << fo.sig
+               << " handler=" << fo.handler_lines;
+            log(ls.str());
+            J d = base_diag(s, L);
+            d.set("signal", fo.sig);
+            d.set("handler_lines", fo.handler_lines);
+            if (!fo.signaled || fo.sig != SIGABRT || fo.returned)
+                return violate(
+                    "C15", "abort-probe", "no-abort",
+                    "handler returned from an unknown class report and "
+                    "update did not abort",
+                    d);
+            bool match = false;
+            for (int c : wf.missing)
+                for (int a = 0; a < (int)w.ids[c].size(); ++a)
+                    if (fo.h_type == ops.class_id(c, a))
+                        match = true;
+            if (fo.handler_lines != 1 || fo.h_alt != EA_UNKNOWN_CLASS || !match)
+                return violate(
+                    "C15", "abort-probe", "wrong-report",
+                    "update did not report the missing class exactly once "
+                    "before aborting",
+                    d);
+            return;
+        }
         ++res.st.updates;
         std::uint64_t attempts_before = g.probes[PROBE_HASH_ATTEMPT];
         UpdateOut uo = ops.update(e);
@@ -1638,6 +1673,9 @@ struct Exec {
             if (!plan.allow_missing || !ops.caps.checked ||
                 any_alias_registered || w.abstract[c])
                 return invalid("call: illegal argument class");
+            if (is_vp_kind(vk[i]) &&
+                ((e.rts[i] & 0xff) == RT_FINAL || (e.rts[i] & 0xff) == 7))
+                return invalid("call: final does not look the class up");
             if (unknown_pos < 0)
                 unknown_pos = i;
         }
